@@ -13,7 +13,8 @@ MODULES = ["Univers.Props.C13", "Univers.Props.Schemes"]
 LEVEL = "proof"
 # function-level tie for the text layer (translator + agreement theorems): see runner step 3a
 TIE_THEOREMS = {"Univers.Text.GenTextThm": ["Univers.Gen.Text.py_remove_spaces_eq", "Univers.Gen.Text.vc_split_eq", "Univers.Gen.Text.vc_from_string_eq", "Univers.Gen.Text.vc_str_eq", "Univers.Gen.Text.vc_to_dict_eq"], "Univers.Text.GenRangeTextThm": ["Univers.Gen.Text.vr_from_string_eq", "Univers.Gen.Text.fromStringFull_plain"],
-                "Univers.Text.GenRangeStrThm": ["Univers.Gen.Text.vr_str_eq", "Univers.Gen.Text.vr_to_dict_eq"]}
+                "Univers.Text.GenRangeStrThm": ["Univers.Gen.Text.vr_str_eq", "Univers.Gen.Text.vr_to_dict_eq"],
+                "Univers.Text.GenVersExact": ["Univers.Gen.Text.py_from_string_exact", "Univers.Gen.Text.py_from_string_presentation_independent"]}
 RULE = ("(1) vers text layer of the real code against the Lean model (decorated spellings included); (2) per scheme, seeded "
         "well-formed ranges: permutations of the constraint list and of the text, whitespace insertion, letter case of 'vers:' "
         "and of the scheme, stray leading/trailing '|', explicit '=' — all variants must give equal ranges with byte-identical "
